@@ -152,6 +152,8 @@ class X:
         self.ctx = ctx
 
     def tx(self, e, env):
+        if not isinstance(e, (ast.Tuple, ast.List)) and any(isinstance(x, ast.Call) and isinstance(x.func, ast.Name) and x.func.id in ("perf_counter_ns", "perf_counter") for x in ast.walk(e)):
+            return "tt", "float", []          # wall-clock readings carry no meaning in the model
         m = getattr(self, "e_" + type(e).__name__, None)
         if m is None:
             fail(e, "unsupported expression %s" % type(e).__name__)
@@ -193,13 +195,32 @@ class X:
     def e_List(self, e, env):
         if not e.elts:
             return "[]", ("list", None), []
-        cs, ty, binds = [], None, []
+        cs, ty, binds, ts = [], None, [], []
+        hetero = False
         for x in e.elts:
             c, t, b = self.tx(x, env)
             cs.append(c)
-            ty = unify(ty, t)
+            ts.append(t)
+            try:
+                ty = unify(ty, t)
+            except Unsupported:
+                hetero = True
             binds += b
+        if hetero:
+            return "(" + ", ".join(cs) + ")", ("tuple", tuple(ts)), binds      # a fixed-shape record written as a list
         return "[" + "; ".join(cs) + "]", ("list", ty), binds
+
+    def e_Dict(self, e, env):
+        items, vt, binds = [], None, []
+        for k, x in zip(e.keys, e.values):
+            kc, kt, kb = self.tx(k, env)
+            vc, t, vb = self.tx(x, env)
+            if kt != "int":
+                fail(e, "dictionary literal with keys of type %r" % (kt,))
+            vt = unify(vt, t)
+            items.append("(%s, %s)" % (kc, vc))
+            binds += kb + vb
+        return "[" + "; ".join(items) + "]", ("dict", vt), binds
 
     def e_Tuple(self, e, env):
         cs, ts, binds = [], [], []
@@ -296,6 +317,8 @@ class X:
     def truth(self, e, env):
         """truth value of an expression (Python truthiness by static type)"""
         c, t, b = self.tx(e, env)
+        if t == "dict" or (isinstance(t, tuple) and t[0] == "dict"):
+            return "(negb (is_nil %s))" % c, b
         if t == "bool":
             return c, b
         if isinstance(t, tuple) and t[0] in ("list", "dict", "set"):
@@ -346,6 +369,8 @@ class X:
         l, tl, bl = self.tx(e.left, env)
         r, tr, br = self.tx(e.right, env)
         ops = {ast.Add: "+", ast.Sub: "-", ast.Mult: "*"}
+        if tl == "iterm" and tr == "iterm" and isinstance(e.op, ast.Sub):
+            return "(IMinus %s %s)" % (l, r), "iterm", bl + br
         if tl == "int" and tr == "int" and type(e.op) in ops:
             return "(%s %s %s)%%Z" % (l, ops[type(e.op)], r), "int", bl + br
         if isinstance(tl, tuple) and tl[0] == "list" and isinstance(tr, tuple) and tr[0] == "list" and isinstance(e.op, ast.Add):
@@ -497,6 +522,14 @@ class X:
             fail(e, "dictionary comprehension with filters or several generators")
         g = e.generators[0]
         it, tit, bit = self.tx(g.iter, env)
+        if isinstance(tit, tuple) and tit[0] == "dict":
+            env2 = dict(env)
+            p = target_pat(g.target, env2, "int")
+            kc, kt = self.pure(e.key, env2)
+            vc, vt = self.pure(e.value, env2)
+            if kt != "int":
+                fail(e, "dictionary comprehension with keys of type %r" % (kt,))
+            return "(map (fun %s => (%s, %s)) (dict_keys %s))" % (p, kc, vc, it), ("dict", vt), bit
         if tit != ("list", "world"):
             fail(e, "dictionary comprehension over %r" % (tit,))
         env2 = dict(env)
@@ -545,6 +578,11 @@ class X:
                     continue
                 fail(e, "argument %s of %s missing" % (pname, fn.name))
             c, t, b = self.tx(given[pname], env)
+            if pty == "symidx":
+                if isinstance(given[pname], ast.Constant) and given[pname].value == "query":
+                    c, t = "SQuery", "symidx"
+                elif t == "int":
+                    c, t = "(SIdx %s)" % c, "symidx"
             unify(pty, t)
             out.append(c)
             binds += b
@@ -650,13 +688,15 @@ class X:
             if t == ("list", "int") and td == "int":
                 return "(zmax_default %s %s)" % (c, d), "int", b + bd
             fail(e, "max of %r" % (t,))
-        if name in ("And", "Or", "Implies") and not (name == "Or" and len(e.args) == 1):
+        if name in ("And", "Or", "Implies") and len(e.args) != 1:
             cs, ts, b = self.simple_args(e, env, 2)
             if ts != ["form", "form"]:
                 fail(e, "%s of %r" % (name, ts))
             return "(%s %s %s)" % ({"And": "FAnd", "Or": "FOr", "Implies": "FImplies"}[name], cs[0], cs[1]), "form", b
         if name == "Not":
             cs, ts, b = self.simple_args(e, env, 1)
+            if ts == ["icon"]:
+                return "(INot %s)" % cs[0], "icon", b
             if ts != ["form"]:
                 fail(e, "Not of %r" % ts)
             return "(FNot %s)" % cs[0], "form", b
@@ -671,6 +711,42 @@ class X:
                                                   and a[0].value.id == "self" and a[0].attr == "epistemic_state"):
                 fail(e, "%s(...) of something other than self.epistemic_state" % name)
             return "tt", ("optimizer" if name == "create_optimizer" else "tseitin"), []
+        if name == "Symbol" and len(e.args) == 2 and not e.keywords and isinstance(e.args[0], ast.JoinedStr):
+            js = e.args[0].values
+            if len(js) == 2 and isinstance(js[0], ast.Constant) and isinstance(js[1], ast.FormattedValue):
+                c, t, b = self.tx(js[1].value, env)
+                pre = js[0].value
+                if pre == "eta_" and t == "int":
+                    return "(ISym (SEta %s))" % c, "iterm", b
+                if pre in ("mv_", "mf_"):
+                    if t == "int":
+                        c, t = "(SIdx %s)" % c, "symidx"
+                    if t == "symidx":
+                        return "(ISym (%s %s))" % ("SMv" if pre == "mv_" else "SMf", c), "iterm", b
+            fail(e, "Symbol with this name pattern")
+        if name == "Int" and len(e.args) == 1 and not e.keywords:
+            c, t, b = self.tx(e.args[0], env)
+            if t != "int":
+                fail(e, "Int of %r" % (t,))
+            return "(IInt %s)" % c, "iterm", b
+        if name == "Plus" and len(e.args) == 1 and not e.keywords:
+            c, t, b = self.tx(e.args[0], env)
+            if t != ("list", "iterm"):
+                fail(e, "Plus of %r" % (t,))
+            return "(IPlus %s)" % c, "iterm", b
+        if name in ("LE", "LT", "GE", "GT") and len(e.args) == 2 and not e.keywords:
+            cs, ts, b = self.simple_args(e, env, 2)
+            if ts != ["iterm", "iterm"]:
+                fail(e, "%s of %r" % (name, ts))
+            return "(I%s %s %s)" % (name, cs[0], cs[1]), "icon", b
+        if name in ("Not", "And") and len(e.args) == 1 and not e.keywords:
+            c, t, b = self.tx(e.args[0], env)
+            if name == "Not" and t == "icon":
+                return "(INot %s)" % c, "icon", b
+            if name == "And" and t == ("list", "icon"):
+                return "(IAnd %s)" % c, "icon", b
+        if name == "dict" and not e.args and not e.keywords:
+            return "[]", ("dict", None), []
         if name == "makeOptimizer" and not e.args and not e.keywords:
             return "zopt_new", "zopt", []
         if name == "is_true" and len(e.args) == 1 and not e.keywords:
@@ -999,6 +1075,10 @@ class B:
             if isinstance(e.args[0], ast.Name) and is_mutable(te):
                 self.ctx.captured.add(e.args[0].id)
             return name, "(%s ++ [%s])" % (v(name), c), b, nt
+        if isinstance(t, tuple) and t[0] == "list" and meth == "extend" and len(e.args) == 1:
+            c, te, b = self.x.tx(e.args[0], env)
+            nt = unify(t, te)
+            return name, "(%s ++ %s)" % (v(name), c), b, nt
         if isinstance(t, tuple) and t[0] == "set" and meth == "add" and len(e.args) == 1:
             c, te, b = self.x.tx(e.args[0], env)
             if te == ("set", "cond"):
@@ -1087,6 +1167,16 @@ class B:
                     self.subscript_assign(s, t, env, let, binds_in)
                     continue
                 c, ty, b = self.x.tx(s.value, env)
+                if isinstance(t, ast.Tuple) and isinstance(s.value, ast.Tuple) and len(t.elts) == len(s.value.elts) \
+                        and all(isinstance(x, ast.Name) and x.id in self.ctx.fn.locals_ and isinstance(y, ast.List) and not y.elts
+                                for x, y in zip(t.elts, s.value.elts)):
+                    # x, y = [], []   with declared element types
+                    tys = [self.ctx.fn.locals_[x.id] for x in t.elts]
+                    c = "(" + ", ".join("([] : %s)" % coq_type(tt_) for tt_ in tys) + ")"
+                    ty = ("tuple", tuple(tys))
+                if isinstance(t, ast.Name) and t.id in self.ctx.fn.locals_ and isinstance(s.value, ast.List) and not s.value.elts:
+                    ty = self.ctx.fn.locals_[t.id]
+                    c = "([] : %s)" % coq_type(ty)
                 if isinstance(t, ast.Name) and t.id in self.ctx.fn.locals_:
                     c, ty = coerce(c, ty, self.ctx.fn.locals_[t.id])
                     unify(self.ctx.fn.locals_[t.id], ty)
@@ -1126,6 +1216,36 @@ class B:
                     binds_in(b)
                     env[name] = nt
                     let(v(name), code)
+                    continue
+                if isinstance(e, ast.ListComp) and len(e.generators) == 2 and not e.generators[1].ifs:
+                    g1, g2 = e.generators
+                    it, tit, bit = self.x.tx(g1.iter, env)
+                    binds_in(bit)
+                    if not (isinstance(tit, tuple) and tit[0] == "list"):
+                        fail(s, "iteration over %r" % (tit,))
+                    env1 = dict(env)
+                    p1 = target_pat(g1.target, env1, tit[1])
+                    cds = []
+                    for cnd in g1.ifs:
+                        cc, cb = self.x.truth(cnd, env1)
+                        if cb:
+                            fail(cnd, "a filter that may raise")
+                        cds.append(cc)
+                    if cds:
+                        it = "(filter (fun %s => %s) %s)" % (p1, " && ".join(cds), it)
+                    it2, tit2 = self.x.pure(g2.iter, env1)
+                    if not (isinstance(tit2, tuple) and tit2[0] == "list"):
+                        fail(s, "inner iteration over %r" % (tit2,))
+                    env2 = dict(env1)
+                    p2 = target_pat(g2.target, env2, tit2[1])
+                    m = self.mutation(e.elt, env2)
+                    if m is None:
+                        fail(s, "comprehension used as a statement whose element is not a supported mutation")
+                    name, code, b, nt = m
+                    if b or name not in env:
+                        fail(s, "unsupported mutation inside a two-level comprehension")
+                    env[name] = nt
+                    let(v(name), "fold_left (fun %s %s => %s) (flat_map (fun %s => %s) %s) %s" % (v(name), p2, code, p1, it2, it, v(name)))
                     continue
                 if isinstance(e, ast.ListComp) and len(e.generators) == 1:
                     g = e.generators[0]
@@ -1210,6 +1330,18 @@ class B:
                     cb_ = cb_.replace(TAIL, tup(names))
                     let(pat(names), "(if %s then (%s) else (%s))" % (c, ca, cb_))
                 continue
+            # ---- for over a pair (a 2-tuple value or a list literal): unrolled
+            if isinstance(s, ast.For) and isinstance(s.target, ast.Name) and self.unrollable(s, env):
+                for sub in self.unroll(s, env):
+                    code, ctl, term, envo = self.block([sub], env, None)
+                    if term:
+                        fail(s, "an unrolled iteration that always leaves the function")
+                    for k_, t_ in envo.items():
+                        env[k_] = t_
+                    pre, suf = code.split(TAIL)
+                    pieces.append((pre, suf))
+                    is_ctl = is_ctl or ctl
+                continue
             # ---- for
             if isinstance(s, ast.For):
                 if s.orelse:
@@ -1280,7 +1412,64 @@ class B:
         code += suffix
         return code, is_ctl, terminated, env
 
+    def unrollable(self, s, env):
+        if s.orelse or any(isinstance(x, (ast.Break, ast.Continue)) for b in s.body for x in ast.walk(b)):
+            return False
+        if isinstance(s.iter, ast.List) and 1 <= len(s.iter.elts) <= 3:
+            return True
+        if isinstance(s.iter, ast.Name) and s.iter.id in env and isinstance(env[s.iter.id], tuple) and env[s.iter.id][0] == "tuple":
+            return True
+        return False
+
+    def unroll(self, s, env):
+        """for x in (a, b): body   ==   x = a; body[x is a := True, x is b := False]; x = b; body[...]
+        (`x is <element>` compares object identity: true exactly in that element's own iteration)"""
+        if isinstance(s.iter, ast.List):
+            elts = s.iter.elts
+        else:
+            nelt = len(env[s.iter.id][1])
+            elts = [ast.Subscript(value=ast.Name(id=s.iter.id, ctx=ast.Load()), slice=ast.Constant(value=k), ctx=ast.Load()) for k in range(nelt)]
+        dumps = [ast.dump(x) for x in elts]
+        tname = s.target.id
+        out = []
+
+        class Fold(ast.NodeTransformer):
+            def __init__(self, k):
+                self.k = k
+
+            def visit_Compare(self, node):
+                self.generic_visit(node)
+                if (len(node.ops) == 1 and isinstance(node.ops[0], (ast.Is, ast.IsNot)) and isinstance(node.left, ast.Name)
+                        and node.left.id == tname and ast.dump(node.comparators[0]) in dumps):
+                    same = dumps.index(ast.dump(node.comparators[0])) == self.k
+                    return ast.copy_location(ast.Constant(value=(same if isinstance(node.ops[0], ast.Is) else not same)), node)
+                return node
+        import copy
+        for k, el in enumerate(elts):
+            a = ast.Assign(targets=[ast.Name(id=tname, ctx=ast.Store())], value=el)
+            ast.copy_location(a, s)
+            ast.fix_missing_locations(a)
+            body = [Fold(k).visit(copy.deepcopy(b)) for b in s.body]
+            wrapper = ast.If(test=ast.Constant(value=True), body=[a] + body, orelse=[])
+            ast.copy_location(wrapper, s)
+            ast.fix_missing_locations(wrapper)
+            out.append(wrapper)
+        return out
+
     def subscript_assign(self, s, t, env, let, binds_in):
+        sk = self.x.state_key(t.value)
+        if sk is not None:
+            entry = [st for st in self.ctx.fn.state if st[0] == sk]
+            if not entry or not (isinstance(entry[0][2], tuple) and entry[0][2][0] == "dict"):
+                fail(s, "assignment into state entry %s" % sk)
+            k, tk, bk = self.x.tx(t.slice, env)
+            c, tv, b = self.x.tx(s.value, env)
+            if tk != "int":
+                fail(s, "dictionary key of type %r" % (tk,))
+            unify(entry[0][2][1], tv)
+            binds_in(bk + b)
+            let(entry[0][1], "(zdict_set %s %s %s)" % (entry[0][1], k, c))
+            return
         if not isinstance(t.value, ast.Name) or t.value.id not in env:
             fail(s, "assignment to a subscript of something other than a local dictionary")
         nm = t.value.id
@@ -1293,7 +1482,7 @@ class B:
         c, tv, b = self.x.tx(s.value, env)
         if tk != "int":
             fail(s, "dictionary key of type %r" % (tk,))
-        unify(ty[1], tv)
+        env[nm] = ("dict", unify(ty[1], tv))
         binds_in(bk + b)
         let(v(nm), "(zdict_set %s %s %s)" % (v(nm), k, c))
 
@@ -1343,7 +1532,7 @@ class B:
 
 # ------------------------------------------------------------------------------------------------ driver
 COQ_TYPES = {"bool": "bool", "int": "Z", "form": "form", "cond": "cond", "solver": "solver", "str": "unit", "none": "unit",
-             "bb": "pybase", "deadline": "unit", "wcnf": "wcnf", "sclause": "sclause", "optimizer": "unit", "tseitin": "unit", "world": "world", "zopt": "zopt", "optint": "(option Z)"}
+             "bb": "pybase", "deadline": "unit", "wcnf": "wcnf", "sclause": "sclause", "optimizer": "unit", "tseitin": "unit", "world": "world", "zopt": "zopt", "optint": "(option Z)", "iterm": "iterm", "icon": "icon", "symidx": "symidx", "float": "unit"}
 
 
 def coq_type(t):
@@ -1576,6 +1765,18 @@ TARGETS = [
         Fn("rank_world", "py_CustomPreOCF_rank_world", [("world", "world"), ("force_calculation", "bool")], cls="CustomPreOCF", ret="int",
            state=RANKS, locals_={"rank": "optint"}),
     ]),
+    dict(out="SrcC", file="inference/c_inference.py", requires=[], extra_imports=["PyInt"], funcs=[
+        Fn("makeSummation", "py_makeSummation", [("minima", ("dict", ("list", ("list", "int"))))]),
+        Fn("freshVars", "py_freshVars", [("i", "symidx")]),
+        Fn("minima_encoding", "py_minima_encoding", [("mv", "iterm"), ("ssums", ("list", "iterm"))]),
+        Fn("encoding", "py_CInference_encoding", [("etas", ("dict", "iterm")), ("vSums", ("dict", ("list", "iterm"))), ("fSums", ("dict", ("list", "iterm")))],
+           cls="CInference"),
+        Fn("translate", "py_CInference_translate", [], cls="CInference",
+           state=[("belief_base", "es_belief_base", "bb"), ("vMin", "es_vMin", ("dict", ("list", ("list", "int")))), ("fMin", "es_fMin", ("dict", ("list", ("list", "int"))))]),
+        Fn("compile_and_encode_query", "py_CInference_compile_and_encode_query", [("query", "cond"), ("deadline", "none")], cls="CInference",
+           state=[("nf_cnf_dict", "es_nf_cnf_dict", ("dict", SCNF))],
+           locals_={"vMin": PART_KEY, "fMin": PART_KEY, "xMins": PART_KEY}),
+    ]),
     dict(out="SrcP", file="inference/p_entailment.py", requires=["SrcCond", "SrcCons"], funcs=[
         Fn("_inference", "py_PEntailment_inference", [("query", "cond"), ("weakly", "bool"), ("deadline", "deadline")],
            cls="PEntailment", ret="bool", state=[("belief_base", "es_belief_base", "bb"), ("smt_solver", "es_smt_solver", "str")]),
@@ -1583,9 +1784,9 @@ TARGETS = [
 ]
 
 
-def header(requires):
+def header(requires, extra=()):
     h = "(* GENERATED by harness/translate.py from /repo's working tree - do not edit *)\n"
-    h += "From InfOCF Require Import Core Tol Form PyLib.\nFrom Coq Require Import ZArith.\n"
+    h += "From InfOCF Require Import Core Tol Form PyLib%s.\nFrom Coq Require Import ZArith.\n" % "".join(" " + x for x in extra)
     for r in requires:
         h += "From InfOCFGen Require Import %s.\n" % r
     h += "\n"
@@ -1597,7 +1798,7 @@ def generate(repo):
     results = {}
     for tg in TARGETS:
         path = os.path.join(repo, tg["file"])
-        out = header(tg["requires"])
+        out = header(tg["requires"], tg.get("extra_imports", ()))
         try:
             src = open(path).read()
             tree = ast.parse(src)
